@@ -309,7 +309,11 @@ theorem inv_msgs {κ : Type} (st : St κ) (l : List Nat) (hi : Inv st) : Inv { s
 theorem inv_apply {κ σ : Type} [BEq κ] [LawfulBEq κ] (des : σ → Bool) (st : St κ) (o : Op κ σ) (hi : Inv st) :
     Inv (apply des st o).1 := by
   cases o with
-  | genesis h cfg => exact inv_updatePeers _ h cfg (inv_hdrs st _ hi)
+  | genesis h cfg =>
+    simp only [apply, genesis]
+    split
+    · exact inv_updatePeers _ h cfg (inv_hdrs st _ hi)
+    · exact hi
   | hdr h cfg bks sigs ver =>
     simp only [apply, syncHeader]
     split
@@ -383,7 +387,10 @@ theorem msg_step {κ σ : Type} [BEq κ] (des : σ → Bool) (st : St κ) (o : O
   cases o with
   | genesis h' cfg =>
     left
-    simpa [apply, genesis, updatePeers_msgs] using hm
+    simp only [apply, genesis] at hm
+    split at hm
+    · simpa [updatePeers_msgs] using hm
+    · exact hm
   | hdr h' cfg bks sigs ver =>
     left
     simp only [apply, syncHeader] at hm
@@ -416,7 +423,7 @@ theorem msg_step {κ σ : Type} [BEq κ] (des : σ → Bool) (st : St κ) (o : O
 /-- what one operation may add to the stored headers -/
 def HdrStep {κ σ : Type} [BEq κ] (des : σ → Bool) (st : St κ) (o : Op κ σ) (h : Nat) : Prop :=
   match o with
-  | .genesis h' _ => h = h'
+  | .genesis h' _ => h = h' ∧ st.hdrs = []
   | .hdr h' _ bks sigs ver => h = h' ∧ verifyHeader des ver st h' bks sigs = .ok ()
   | _ => False
 
@@ -424,9 +431,13 @@ theorem hdr_step {κ σ : Type} [BEq κ] (des : σ → Bool) (st : St κ) (o : O
     (hm : h ∈ (apply des st o).1.hdrs) : h ∈ st.hdrs ∨ HdrStep des st o h := by
   cases o with
   | genesis h' cfg =>
-    simp only [apply, genesis, updatePeers_hdrs] at hm
-    rcases List.mem_cons.mp hm with rfl | hm
-    · exact Or.inr rfl
+    simp only [apply, genesis] at hm
+    split at hm
+    · rename_i he
+      rw [updatePeers_hdrs] at hm
+      rcases List.mem_cons.mp hm with rfl | hm
+      · exact Or.inr ⟨rfl, by simpa using he⟩
+      · exact Or.inl hm
     · exact Or.inl hm
   | hdr h' cfg bks sigs ver =>
     simp only [apply, syncHeader] at hm
@@ -455,7 +466,7 @@ theorem hdr_step {κ σ : Type} [BEq κ] (des : σ → Bool) (st : St κ) (o : O
 /-- what one operation may add to the recorded peer sets -/
 def PeerStep {κ σ : Type} [BEq κ] (des : σ → Bool) (st : St κ) (o : Op κ σ) (e : Nat × List κ) : Prop :=
   match o with
-  | .genesis h (.peers ps) => e = (h, dedupKeys ps)
+  | .genesis h (.peers ps) => e = (h, dedupKeys ps) ∧ st.hdrs = []
   | .hdr h (.peers ps) bks sigs ver =>
     e = (h, dedupKeys ps) ∧ verifyHeader des ver st h bks sigs = .ok () ∧ st.hdrs.contains h = false
   | _ => False
@@ -476,9 +487,12 @@ theorem peer_step {κ σ : Type} [BEq κ] (des : σ → Bool) (st : St κ) (o : 
   cases o with
   | genesis h' cfg =>
     simp only [apply, genesis] at hm
-    rcases updatePeers_peers _ h' cfg e hm with h | ⟨ps, rfl, rfl⟩
-    · exact Or.inl h
-    · exact Or.inr rfl
+    split at hm
+    · rename_i he
+      rcases updatePeers_peers _ h' cfg e hm with h | ⟨ps, rfl, rfl⟩
+      · exact Or.inl h
+      · exact Or.inr ⟨rfl, by simpa using he⟩
+    · exact Or.inl hm
   | hdr h' cfg bks sigs ver =>
     simp only [apply, syncHeader] at hm
     split at hm
